@@ -235,7 +235,7 @@ class DataGen:
         if k == 5:
             return f"({self.e_int(env, d - 1)}) // {s.pick([2, 3])}"
         if k == 6:
-            return f"len({self.e_list(env, d - 1)})"
+            return f"len({self.e_list(env, d - 1) if s.chance(1, 6) else (s.pick(self.names(env, 'list') or ['[4, 4]']))})"
         if k == 7:
             return f"sum({self.e_list(env, d - 1)})"
         if k == 8:
@@ -399,7 +399,8 @@ class DataGen:
         env = _Shadow(real_env)          # expressions read the bindings that existed BEFORE this idiom
         src = self.e_list(env, 1)
         z = dict(env.ro, x="int")
-        k = s.below(22)
+        k = s.weighted([(0, 6), (1, 5), (2, 3), (3, 2), (4, 6), (5, 1), (6, 2), (7, 2), (8, 5), (9, 5), (10, 5), (11, 1), (12, 6),
+                        (13, 5), (14, 5), (15, 1), (16, 4), (17, 5), (18, 3), (19, 5), (20, 5), (21, 5)])
         if k == 0:   # accumulate list
             o = self.fresh(env, "list"); env[o] = "list"
             cond = s.chance(1, 2)
@@ -600,6 +601,8 @@ class DataGen:
         body = self.stmts(env, 2, 2 + s.below(3))
         vis = self.show(env)
         keep = [v for v in vis if s.chance(3, 4)] or vis[:1]
+        if method and s.chance(5, 6):
+            keep = keep + ["self.base"]
         body += [f"return ({', '.join(keep)},)"]
         sig = "self, a, b, xs" if method else "a, b, xs"
         return [f"def {name}({sig}):"] + ind(body)
@@ -641,7 +644,8 @@ class DataGen:
         if has_class:
             lines += [f"_obj = {cname}(2)", "print(_obj.total([1, 2]))", "print(_obj.helper(1, 2, [3, 1]))"]
         if s.chance(1, 2):
-            env = {}
+            env = {"g_n": "int", "g_xs": "list"}
+            lines += ["g_n = 3", "g_xs = [2, 7, 1]"]
             top = self.stmts(env, 1, 1 + s.below(3), False, False)
             lines += top + [f"print({', '.join(self.show(env)) or 0})"]
         return "\n".join(lines) + "\n"
@@ -754,3 +758,45 @@ TRIGGERS = {
     "shadowed_builtins": "def f(xs):\n    sum = 0\n    for x in xs:\n        sum += x\n    return sum\n\n\ndef g(xs):\n    list = [x for x in xs]\n    return list\n\n\nsorted_ = sorted\n\n\ndef sorted(v):\n    return 'mine'\n\n\nprint(f([1, 2]), g([1]), sorted([2, 1]), sorted_([2, 1]), [x for x in sorted([3])])\n",
     "del_and_scopes": "x = 1\ndel x\ntry:\n    print(x)\nexcept NameError:\n    print('gone')\ny = 2\n\n\ndef f():\n    y = 3\n    del y\n    try:\n        return y\n    except UnboundLocalError:\n        return 'unbound'\n\n\nprint(f(), y)\n",
 }
+
+
+# ------------------------------------------------------------------------------------------------
+# (c) repository examples, read from $VERIF_REPO at run time
+
+
+def repo_examples(repo: Path) -> list[tuple[str, str]]:
+    import warnings
+    warnings.filterwarnings("ignore", category=SyntaxWarning)
+    out, seen = [], set()
+
+    def add(name, text):
+        if text in seen or len(text) > 6000 or "\n" not in text.strip():
+            return
+        try:
+            ast.parse(text)
+        except (SyntaxError, ValueError):
+            return
+        seen.add(text)
+        out.append((name, text))
+
+    integ = repo / "tests" / "integration" / "integration_test_cases.py"
+    if integ.exists():
+        tree = ast.parse(integ.read_text())
+        k = 0
+        for node in ast.walk(tree):
+            if isinstance(node, ast.Tuple) and len(node.elts) == 2 and all(
+                    isinstance(e, ast.Constant) and isinstance(e.value, str) for e in node.elts):
+                add(f"integration:{k}:in", node.elts[0].value)
+                add(f"integration:{k}:out", node.elts[1].value)
+                k += 1
+    for p in sorted((repo / "tests" / "unit").glob("test_*.py")):
+        try:
+            tree = ast.parse(p.read_text())
+        except SyntaxError:
+            continue
+        k = 0
+        for node in ast.walk(tree):
+            if isinstance(node, ast.Constant) and isinstance(node.value, str) and "\n" in node.value:
+                add(f"unit:{p.stem}:{k}", node.value)
+                k += 1
+    return out
